@@ -232,8 +232,16 @@ class Gen:
         if "q" in a and self.r.random() < p:
             nf = {"k": "not", "a": {"k": "field", "key": self.r.randrange(1, self.nfk + 1), "key2": 0, "mf": 0,
                                    "op": self.r.choice(["eq", "lt", "ge"]), "v": self.r.randrange(NN), "tf": 0}}
-            a["q"] = {"k": "and", "a": a["q"], "b": nf} if self.r.random() < 0.5 else {"k": "and", "a": nf, "b": a["q"]}
-            a["negfield"] = 1
+            x = self.r.random()
+            if x < 0.35:
+                a["q"] = {"k": "and", "a": a["q"], "b": nf}
+            elif x < 0.7:
+                a["q"] = {"k": "and", "a": nf, "b": a["q"]}
+            elif x < 0.85:      # the negated field test buried under another negation: ~(~f | ~q)  ==  f' & q
+                a["q"] = {"k": "not", "a": {"k": "or", "a": nf, "b": {"k": "not", "a": a["q"]}}}
+            else:               # ... or doubly negated
+                a["q"] = {"k": "and", "a": {"k": "not", "a": {"k": "not", "a": nf}}, "b": a["q"]}
+            a["negfield"] = 1 if x < 0.7 else 2
         return a
 
     def adapt(self, a, p=0.5):
